@@ -4,6 +4,7 @@ R16.1  decoding failures become ValueError: every exceptional exit of structure_
 R16.2  every descent of DataclassSerializer is guarded by the visited set (delegations to cattrs are unguarded)  [finding]
 R16.3  None stripping / dict conversion on every return path of the serialiser
 R16.4  the post-processor recurses with itself on containers (lists, dict values) so that every nested value is processed
+R16.9  no value computed from a class is memoised on that class and read back through an inheriting lookup (getattr/hasattr/attribute)
 R16.8  the raw-dict fallback of union decoding applies to dict[str, Any] only (guard evaluated over {str, other} x {Any, other})
 R3.3/R3.4/R3.5 hook pairs inverse, rename plumbing, recursive registration (shared with C03)
 """
@@ -23,6 +24,7 @@ def run(repo: Repo, rep: Report, tier: str) -> None:
     cv.rule_hook_pairs(repo, rep, "R16.5")
     cv.rule_rename_plumbing(repo, rep, "R16.6")
     cv.rule_recursive_registration(repo, rep, "R16.7")
+    rule_class_memo(repo, rep, "R16.9")
     conv = repo.module("core.cattrs_converter")
     # ---------------------------------------------------------------- R16.1
     sfd = conv.functions.get("structure_from_dict")
@@ -282,3 +284,77 @@ def _dict_fallback_rule(repo: Repo, rep: Report) -> None:
             rep.violation("R16.8", sub, f"{su.fq}|dict-fallback|{wrong}",
                           f"the 'return the raw dict' fallback is (not) taken for dict{wrong}: e.g. Optional[dict[str, Model]] comes back as plain dicts - "
                           "the values are never structured and encoding them again fails", su.loc(st))
+
+
+# ------------------------------------------------------------------------------------------------ R16.9 per-class memo lookups
+_R169_EXAMPLE = '''
+def make(captured_cls):
+    def hook(obj):
+        fn = getattr(captured_cls, "_memo_fn", None)
+        if fn is None:
+            fn = _build(captured_cls)
+            setattr(captured_cls, "_memo_fn", fn)
+        return fn(obj)
+    return hook
+'''
+
+
+def _class_memo_hazards(tree: ast.AST):
+    """(attribute, store node, read node) for every value that is computed *from a class object*, stored on that class under a constant
+    attribute name and read back through an inheritance-aware lookup (getattr / hasattr / plain attribute access): a subclass
+    without its own entry then finds its parent's value.  `vars(cls)` / `cls.__dict__` lookups are per class and are fine."""
+    stores = {}  # attr -> (node, holder expr text)
+    for n in ast.walk(tree):
+        holder = attr = val = None
+        if isinstance(n, ast.Call) and isinstance(n.func, ast.Name) and n.func.id == "setattr" and len(n.args) == 3 and isinstance(n.args[1], ast.Constant) and isinstance(n.args[1].value, str):
+            holder, attr, val = n.args[0], n.args[1].value, n.args[2]
+        elif isinstance(n, ast.Assign) and len(n.targets) == 1 and isinstance(n.targets[0], ast.Attribute) and isinstance(n.targets[0].value, ast.Name) and n.targets[0].value.id != "self":
+            holder, attr, val = n.targets[0].value, n.targets[0].attr, n.value
+        if holder is None or not isinstance(holder, ast.Name):
+            continue
+        # the stored value is specific to the holder: it is (a local bound to) a call that takes the holder as an argument
+        fn = n
+        while getattr(fn, "_parent", None) is not None and not isinstance(fn, (ast.FunctionDef, ast.AsyncFunctionDef)):
+            fn = fn._parent  # type: ignore[attr-defined]
+        cands = [val]
+        if isinstance(val, ast.Name) and isinstance(fn, (ast.FunctionDef, ast.AsyncFunctionDef)):
+            cands += [a.value for a in ast.walk(fn) if isinstance(a, ast.Assign) and any(isinstance(t, ast.Name) and t.id == val.id for t in a.targets)]
+        specific = any(isinstance(c, ast.Call) and any(isinstance(a, ast.Name) and a.id == holder.id for a in c.args) for v in cands for c in ast.walk(v))
+        if specific:
+            stores[attr] = n
+    out = []
+    for n in ast.walk(tree):
+        if isinstance(n, ast.Call) and isinstance(n.func, ast.Name) and n.func.id in ("getattr", "hasattr") and len(n.args) >= 2 and isinstance(n.args[1], ast.Constant) and n.args[1].value in stores:
+            out.append((n.args[1].value, stores[n.args[1].value], n))
+        elif isinstance(n, ast.Attribute) and isinstance(n.ctx, ast.Load) and n.attr in stores and not (isinstance(n.value, ast.Name) and n.value.id == "self"):
+            out.append((n.attr, stores[n.attr], n))
+    return out, stores
+
+
+def rule_class_memo(repo: Repo, rep: Report, rule: str = "R16.9") -> None:
+    from sa.model import set_parents
+
+    ex = ast.parse(_R169_EXAMPLE)
+    set_parents(ex)
+    hz, _ = _class_memo_hazards(ex)
+    rep.require(len(hz) == 1, f"{rule}: the built-in positive example is no longer recognised ({len(hz)} hazards) - the rule is broken")
+    n_mod = 0
+    for m in repo.modules.values():
+        if ".core." not in "." + m.name + ".":
+            continue
+        if not any(m.relpath.endswith(x) for x in ("cattrs_converter.py", "utils.py", "schemas.py")):
+            continue
+        n_mod += 1
+        if not hasattr(m.tree.body[0], "_parent"):
+            set_parents(m.tree)
+        hz, stores = _class_memo_hazards(m.tree)
+        sub = f"{m.relpath} per-class memo lookups"
+        if not hz:
+            rep.ok(rule, sub, f"no value computed from a class is stored on it and read back through an inheriting lookup ({len(stores)} class-specific store(s))", f"{m.relpath}:1")
+        for attr, st, rd in hz:
+            rep.violation(rule, sub + f" `{attr}`", f"{m.relpath}|inherited-class-memo|{attr}",
+                          f"`{norm(st)[:70]}` keeps a value computed for one class on that class, and `{norm(rd)[:60]}` reads it with an inheritance-aware lookup: "
+                          "a dataclass that extends another one finds its parent's entry, so the subclass is encoded/decoded with the parent's field set "
+                          "(its own fields are dropped) - use vars(cls)/cls.__dict__ or a dict keyed by the class", f"{m.relpath}:{rd.lineno}")
+    rep.require(n_mod >= 1, f"{rule}: the converter module was not found (anchor)")
+    rep.count(f"{rule}:modules", n_mod)
